@@ -28,12 +28,13 @@ def catalogue(tier):
         # ([0,3] splits at round(1.5) = 2), so children of one node have different lengths
         "H6": B.Cfg(6, 2, 2, 2, True, 0, 1, 2, False, Fuel=20, MaxNodes=31),
     }
+    # zero-length queries around the warm-up threshold, tol = 0 (cheap: also in the quick tier, used by C07)
+    C["A3"] = B.Cfg(4, 2, 0, 3, False, 0, 2, 2, True, Fuel=20, MaxEval=3, MaxNodes=31)
     if tier == "thorough":
         C.update({
             "F": B.Cfg(4, 2, 0, -1, False, 0, 2, 2, False, Fuel=20, MaxEval=3),
             "G": B.Cfg(8, 1, 1, 2, True, 0, 1, 1, False, Fuel=20, MaxNodes=63),
             "C": B.Cfg(4, 4, 4, 2, False, 0, 1, 1, True, Fuel=20, MaxEval=2, MaxNodes=31),
-            "A3": B.Cfg(4, 2, 0, 3, False, 0, 2, 2, True, Fuel=20, MaxEval=3, MaxNodes=31),
             "A1": B.Cfg(6, 2, 0, 1, False, 0, 1, 2, False, Fuel=24, MaxEval=2, MaxNodes=31),
             "E2": B.Cfg(4, 2, 2, 0, False, 2, 1, 1, True, Fuel=20, MaxNodes=31),
         })
